@@ -1,7 +1,7 @@
 #!/bin/bash
 # After `git merge cNN` in /verif: regenerate the generated files, commit the merge, run the merged property's check.
 cd /verif
-for f in MANIFEST.json lean/Driver/Main.lean lean/Litep2pVerif/Generated/Consts.lean; do
+for f in MANIFEST.json lean/Driver/Main.lean lean/Litep2pVerif/Generated/Consts.lean $(git diff --name-only --diff-filter=U | grep "^evidence/"); do
   git checkout --theirs -- $f 2>/dev/null
 done
 python3 -c "import verif; verif.gen_main()"
